@@ -195,6 +195,10 @@ class Task:
             if ev.is_set():
                 return 'run'
             return None if deadline is None else 'timeout'
+        if kind == 'lock':
+            return 'run' if self.wait[1].owner is None else None
+        if kind == 'yield':
+            return 'run'
         if kind == 'join':
             _, other, deadline = self.wait
             if other.state == 'done':
@@ -543,3 +547,34 @@ def hdr(parts):
 
 def req_hdr(parts):
     return json.loads(parts[0].decode())
+
+
+class SimLock:
+    """threading.Lock stand-in: acquire() parks the task while another task holds the lock"""
+
+    def __init__(self):
+        self.owner = None
+
+    def acquire(self, blocking=True, timeout=-1):
+        w = Context.world
+        t = w.cur if w else None
+        while self.owner is not None and self.owner is not t:
+            if t is None or not blocking:
+                return False
+            t.park(('lock', self))
+        self.owner = t or True
+        return True
+
+    def release(self):
+        self.owner = None
+
+    def locked(self):
+        return self.owner is not None
+
+    def __enter__(self):
+        self.acquire()
+        return self
+
+    def __exit__(self, *a):
+        self.release()
+        return False
